@@ -25,7 +25,7 @@ func Make[T any](ch chan T) chan T {
 // MakeCap is Make with an explicit model capacity (used for EventBufsiz).
 func MakeCap[T any](ch chan T, capacity int) chan T {
 	if s := current; s != nil && !s.aborting {
-		s.register(chanPtr(ch), capacity, "")
+		s.register(chanPtr(ch), capacity, ".buf")
 	}
 	return ch
 }
